@@ -2,9 +2,11 @@
 `arcadrv engineapi`: replay the cases of `vharness engineapi` through `Arca.Model.EngineApi`.
 
 For every variant of a case (one call of the real engine entry point) the model is instantiated with
-  * the file cache the harness built (keys -> content digests, root directory as given),
+  * the file cache the harness built (keys -> content digests, root directory as given): for the in-memory variants all
+    the files, some of them, or only the referring ones — `Parse` hands this cache to the sub-workflow discovery, which
+    takes the files it holds from there and loads only the others,
   * `abs` = what `filepath.Abs` returned for that root directory in that working directory,
-  * the disk = the files of the generated tree,
+  * the disk = the files of the generated tree (nothing for the variants whose root directory does not exist),
   * `fromYAML` = what the generated files denote (version, referenced sub-workflows, output ids, explicit schema table),
   * `prepareSteps`/`execute` = the outcome of the DIRECT run (converter + Prepare + Execute) on the same contents,
 and `runWorkflow` must predict what the engine returned: error vs output, the class of a file-stage error, output id,
